@@ -423,7 +423,7 @@ declarations:
   - decl: ~Cls()
   - decl: int get() const
   - decl: Cls * clone() +owner(caller)
-- decl: Cls * pooled(int v) +owner(caller)+free_pattern(pool_release)
+%(kinds)s- decl: Cls * pooled(int v) +owner(caller)+free_pattern(pool_release)
 - decl: Cls * make(int v) +owner(caller)
 - decl: Cls * borrow() +owner(library)
 - decl: char * pdup(int k) +owner(caller)
@@ -439,6 +439,15 @@ char *pdup(int k) { char *p = dupname(k); track_(p); return p; }
 int *pints(int n) { int *p = newints(n); track_(p); return p; }
 """
 PHPP_EXTRA = "char *pdup(int k);\nint *pints(int n);\n"
+# more classes than one digit counts: every class has a release code of its own in the library-wide table
+NKINDS = 12
+PYAML = PYAML.replace("%(kinds)s", "".join(
+    "- decl: class K%02d\n  declarations:\n  - decl: K%02d(int v)\n  - decl: ~K%02d()\n" % (k, k, k) for k in range(1, NKINDS + 1)))
+PHPP_EXTRA += "".join("class K%02d { public: int v; explicit K%02d(int v); ~K%02d(); };\n" % (k, k, k) for k in range(1, NKINDS + 1))
+PCPP_EXTRA += "".join(
+    'K%(k)02d::K%(k)02d(int v_) : v(v_) { vt_live(1); vt_begin("Lib", "ctor"); vt_obj(this); vt_int(%(k)d); vt_end(); }\n'
+    'K%(k)02d::~K%(k)02d() { vt_live(-1); vt_begin("Lib", "dtor"); vt_obj(this); vt_int(%(k)d); vt_end(); }\n' % {"k": k}
+    for k in range(1, NKINDS + 1))
 
 PYDRIVER = r"""
 import gc, json, sys
@@ -458,7 +467,7 @@ for n in range(start, len(seqs)):
         mark(ev="Op", op=op, v=v, w=w)
         exc = ""
         try:
-            if op == "ctor": env[v] = pown.Cls(7)
+            if op == "ctor": env[v] = getattr(pown, w or "Cls")(7)
             elif op == "make": env[v] = pown.make(9)
             elif op == "pooled": env[v] = pown.pooled(3)
             elif op == "borrow": env[v] = pown.borrow()
@@ -542,6 +551,13 @@ def python_part(c, d, thorough):
         c.violation("py-build:link", txt[-800:])
         return 0
     seqs = py_sequences(4 if thorough else 3)
+    # one object of every class, constructed and dropped in turn: each is released by its own destructor
+    kseq = []
+    for k in range(1, NKINDS):
+        kseq += [("ctor", "a", "K%02d" % k), ("del", "a", "")]
+    seqs.append(kseq[:22])
+    seqs.append([("ctor", "a", "K%02d" % NKINDS), ("ctor", "b", "K02"), ("del", "a", ""), ("del", "b", ""),
+                 ("ctor", "a", "K10"), ("ctor", "b", "K01"), ("del", "b", ""), ("del", "a", "")])
     json.dump(seqs, open(os.path.join(pd, "seqs.json"), "w"))
     open(os.path.join(pd, "driver.py"), "w").write(PYDRIVER)
     tf = os.path.join(pd, "trace.ndjson")
@@ -579,7 +595,7 @@ def python_part(c, d, thorough):
             cur = {"events": [], "crash": crashes.get(e["n"], ""), "n": e["n"], "ids": {}}
             traces.append(cur)
         elif ev == "Op" and cur is not None:
-            op = {"op": e["op"], "v": e["v"], "w": e["w"], "lib": [], "exc": "crash"}
+            op = {"op": e["op"], "v": e["v"], "w": "" if e["op"] == "ctor" else e["w"], "lib": [], "exc": "crash"}
             cur["events"].append(op)
         elif ev == "OpEnd" and op is not None:
             op["exc"] = e["exc"]
@@ -588,6 +604,7 @@ def python_part(c, d, thorough):
             cur = None
         elif ev == "Lib":
             addr = [x["v"] for x in e["vals"] if x["t"] == "o"][0]
+            kind_ = ([x["v"] for x in e["vals"] if x["t"] == "i"] or [0])[0]
             if prelude:
                 if e["f"] == "ctor":
                     lib_addr = addr
@@ -605,7 +622,10 @@ def python_part(c, d, thorough):
             kind = e["f"]
             if kind == "dtor" and op is not None and op["op"] in ("dupname", "newints"):
                 kind = "free"
-            (op["lib"] if op is not None else cur["events"][-1]["lib"] if cur["events"] else []).append({"ev": kind, "id": oid})
+            if e["f"] == "ctor":
+                cur.setdefault("kinds", {})[oid] = kind_
+            (op["lib"] if op is not None else cur["events"][-1]["lib"] if cur["events"] else []).append(
+                {"ev": kind, "id": oid, "k": kind_, "ck": cur.get("kinds", {}).get(oid, kind_)})
     if not traces:
         raise MachineryError("no Python ownership sequence recorded")
     controls = []
@@ -621,7 +641,7 @@ def python_part(c, d, thorough):
             k = json.loads(json.dumps(t))
             for e in k["events"]:
                 if e["op"] == "del" and not e["lib"]:
-                    e["lib"] = [{"ev": "dtor", "id": MAXOBJ}]
+                    e["lib"] = [{"ev": "dtor", "id": MAXOBJ, "k": 0, "ck": 0}]
                     break
             controls.append(k)
     alltr = [{"events": t["events"], "crash": t["crash"]} for t in traces + controls]
